@@ -26,6 +26,9 @@ var c10Sets = [][]mockq.KV{
 	{{K: "a", V: "bcd"}, {K: "e", V: ""}},
 	{{K: "a", V: "b"}, {K: "c", V: "d"}, {K: "e", V: "f"}},
 	{{K: "e", V: "f"}, {K: "c", V: "d"}, {K: "a", V: "b"}},
+	// names that differ in letter case only are different names
+	{{K: "A", V: "b"}, {K: "a", V: "c"}},
+	{{K: "a", V: "b"}, {K: "A", V: "c"}},
 }
 
 type c10Input struct {
@@ -126,6 +129,9 @@ func c10Build(in c10Input) ([]mockq.Rec, refmodel.Expr) {
 		} else {
 			e = &refmodel.Bin{Op: "*", L: x, R: &refmodel.Lit{V: 2}}
 		}
+	case "without-all-or-vector":
+		// every label hidden by without(): the empty label set again
+		e = &refmodel.Bin{Op: "or", L: &refmodel.VecAgg{Op: "sum", Grouping: &refmodel.Grouping{Without: true, Labels: []string{"A", "a", "ab", "b", "bc", "c", "cd", "d", "e"}}, X: &refmodel.RangeAgg{Op: "count_over_time", RangeNS: 10 * sec}}, R: &refmodel.Vec{V: 0}}
 	case "total-or-vector":
 		// two ways of producing the empty label set must agree on its identity
 		e = &refmodel.Bin{Op: "or", L: &refmodel.VecAgg{Op: "sum", X: &refmodel.RangeAgg{Op: "count_over_time", RangeNS: 10 * sec}}, R: &refmodel.Vec{V: 0}}
@@ -318,9 +324,9 @@ func c10Run(r *vkit.Run) {
 		if r.Stop() {
 			break
 		}
-		for _, shape := range []string{"count", "sum-count", "avg-unwrap", "nested", "total-or-vector", "vector-unless-total", "lit-left", "lit-right"} {
+		for _, shape := range []string{"count", "sum-count", "avg-unwrap", "nested", "total-or-vector", "vector-unless-total", "lit-left", "lit-right", "without-all-or-vector"} {
 			for _, g := range c10GroupingNames {
-				if (shape == "count" || shape == "total-or-vector" || shape == "vector-unless-total") && g != "" {
+				if (shape == "count" || shape == "total-or-vector" || shape == "vector-unless-total" || shape == "without-all-or-vector") && g != "" {
 					continue // the grammar forbids grouping on count_over_time
 				}
 				for _, rg := range []bool{false, true} {
@@ -433,7 +439,7 @@ func c10Run(r *vkit.Run) {
 		r.NonTrivial()
 	}
 	r.Count("separator_collision_pairs", int64(len(coll)))
-	r.Note("bounds", fmt.Sprintf("all tuples of 1..%d label sets from a 12-set colliding alphabet x {count_over_time, sum by/without(...) of it, avg_over_time by/without(...)} x 6 groupings x {instant, 3-step range}; all tuples of 10 JSON lines whose label values are numbers, booleans and strings (through | json) x 6 groupings; every sequence of 3..5 records over 2-3 label sets under ranges of 0.5, 1, 2 and 3 s with one step per second (series taking turns, partial expiry); every map iteration inside Eval is a choice point, deviation bound %d (complete rotation set: all label maps have <= 8 entries)", n, bound))
+	r.Note("bounds", fmt.Sprintf("all tuples of 1..%d label sets from a 14-set colliding alphabet x {count_over_time, sum by/without(...) of it, avg_over_time by/without(...)} x 6 groupings x {instant, 3-step range}; all tuples of 10 JSON lines whose label values are numbers, booleans and strings (through | json) x 6 groupings; every sequence of 3..5 records over 2-3 label sets under ranges of 0.5, 1, 2 and 3 s with one step per second (series taking turns, partial expiry); every map iteration inside Eval is a choice point, deviation bound %d (complete rotation set: all label maps have <= 8 entries)", n, bound))
 }
 
 func c10Replay(r *vkit.Run, v vkit.Violation) *vkit.Violation {
